@@ -577,6 +577,12 @@ def _was_absent(P, fi, fl, st, recv: ast.AST, cond_atoms_) -> tuple:
     for l in looks:
         if not _source_key(P, fi, _lookup_key(P, fi, l)):
             continue
+        # "the station is new" must be decided on a lookup that hides EXPIRED entries (get_entry applies the expiry
+        # predicate: C08.purge-on-read): a raw table access also finds an entry whose lifetime is over but that was not
+        # purged yet, and such an entry would be revived with its old neighbour flag
+        if not (isinstance(l.func, ast.Attribute) and l.func.attr == "get_entry"):
+            return False, (f"whether the source is new is decided by the raw table access `{unparse(l)[:50]}`, which also returns "
+                           "expired entries: an expired neighbour heard again through a relay keeps its neighbour flag")
         want = sem.atoms(ast.Compare(left=l, ops=[ast.Is()], comparators=[ast.Constant(None)]), True)
         if cond_atoms_ is None:
             return True, want
